@@ -233,6 +233,22 @@ func cmdCheck(args []string) {
 			}(o)
 		}
 		wg2.Wait()
+		// last resort against solver time under machine load: what is still undecided is tried
+		// once more, one obligation at a time, with a very long limit
+		var still []*Obl
+		for _, o := range retry {
+			if o.Status != "unsat" && o.Status != "trivial" && o.Status != "sat" {
+				still = append(still, o)
+			}
+		}
+		if len(still) > 0 && len(still) <= 6 {
+			solverTimeout = 300
+			for _, o := range still {
+				one := func(x *Obl) bool { return x == o }
+				o.Status = ""
+				discharge(retryRes[o], one, true)
+			}
+		}
 		solverTimeout = saved
 	}
 	var evs []evidenceObl
